@@ -20,8 +20,9 @@ ACTIONS = [
     {'kind': 'clean'},
     {'kind': 'topack', 'ids': [0, 1, 2], 'compress': True},
 ]
-# rsync calls of backup_container: 1 = loose, 2 = dumped index, 3 = packs, 4 = everything else
-POSITIONS = [(1, 'before'), (1, 'mid'), (2, 'before'), (3, 'before'), (3, 'mid'), (4, 'before'), (4, 'mid')]
+# rsync calls of backup_container: 1 = loose, 2 = dumped index, 3 = packs, 4 = everything else; 'after' = right after the call returned,
+# i.e. before whatever the backup does next (after call 1: before the index is dumped)
+POSITIONS = [(1, 'before'), (1, 'mid'), (1, 'after'), (2, 'before'), (2, 'after'), (3, 'before'), (3, 'mid'), (3, 'after'), (4, 'before'), (4, 'mid')]
 
 
 def run_case(case) -> tuple[str, dict] | None:
